@@ -56,6 +56,11 @@ enum V {
     /// list of items with these sizes
     List(Vec<usize>),
     U32,
+    /// an attribute (declared as an array / as a scalar) whose handler fails every read
+    FailList,
+    FailScalar,
+    /// ... with a constraint error (the code the list reader takes for "past the last item")
+    FailListConstraint,
 }
 
 #[derive(Clone, Debug, PartialEq, Eq, Hash)]
@@ -85,6 +90,8 @@ fn value_of(v: &V, attr_id: u32) -> Val {
         V::Bytes(n) => Val::Bytes(fill(*n, attr_id as u8)),
         V::List(sizes) => Val::List(sizes.iter().enumerate().map(|(i, n)| fill(*n, (attr_id as u8) ^ (i as u8).wrapping_mul(7))).collect()),
         V::U32 => Val::U32(0xC0DE_0000 + attr_id),
+        V::FailList | V::FailScalar => Val::Failing(false),
+        V::FailListConstraint => Val::Failing(true),
     }
 }
 
@@ -93,7 +100,7 @@ fn node_of(spec: &Spec) -> NodeSpec {
         .attrs
         .iter()
         .enumerate()
-        .map(|(i, v)| AttrSpec { id: i as u32 + 1, access: Access::RV, quality: if matches!(v, V::List(_)) { Quality::ARRAY } else { Quality::NONE }, value: value_of(v, i as u32 + 1) })
+        .map(|(i, v)| AttrSpec { id: i as u32 + 1, access: Access::RV, quality: if matches!(v, V::List(_) | V::FailList | V::FailListConstraint) { Quality::ARRAY } else { Quality::NONE }, value: value_of(v, i as u32 + 1) })
         .collect();
     let mut endpoints = vec![
         EndpointSpec { id: 0, device_type: 0x16, clusters: vec![ClusterSpec { id: CL2, attrs: vec![AttrSpec { id: 1, access: Access::RV, quality: Quality::NONE, value: Val::U32(7) }], cmds: vec![], events: vec![] }] },
@@ -446,7 +453,11 @@ fn judge(spec: &Spec, o: &Outcome) -> Vec<(String, String)> {
                     Val::List(items) => items.iter().any(|i| i.len() >= CAP_MIN),
                     _ => false,
                 });
-                if *status == 0x89 && too_large == Some(true) {
+                let failing = node.attr(key.0, key.1, key.2).map(|a| matches!(a.value, Val::Failing(_))).unwrap_or(false);
+                if failing && *status != 0 {
+                    // the handler of this attribute fails: its status stands for it (exactly once)
+                    order.push(key);
+                } else if *status == 0x89 && too_large == Some(true) {
                     refused.push(key);
                 } else {
                     v.push((format!("C14:{}:status-instead-of-data", kind), format!("{:?}/{:?}/{:?}: {:#x}", ep, cl, leaf, status)));
@@ -503,6 +514,7 @@ fn judge(spec: &Spec, o: &Outcome) -> Vec<(String, String)> {
                 }
             }
             Val::FabricList(_) => {}
+            Val::Failing(_) => v.push((format!("C14:{}:data-for-an-attribute-whose-handler-fails", kind), format!("{}/{:#x}/{}", ep, cl, attr))),
         }
     }
     v
@@ -542,6 +554,18 @@ fn specs(tier: Tier, deep: bool) -> Vec<Spec> {
         v.push(base(vec![V::Bytes(n), V::Bytes(100)]));
         if tier == Tier::Thorough || n % 3 == 0 {
             v.push(base(vec![V::Bytes(300), V::Bytes(n), V::U32]));
+        }
+    }
+    // an attribute whose handler fails, behind an octet string of every size (its status lands on every
+    // position relative to the end of the message), as an array and as a scalar attribute, concrete paths
+    for n in (0..=1300usize).step_by(if tier == Tier::Quick { 3 } else { 1 }).chain(1040..=1130) {
+        for fail in [V::FailList, V::FailScalar, V::FailListConstraint] {
+            for subscribe in [false, true] {
+                if tier == Tier::Quick && subscribe && n % 2 == 1 {
+                    continue;
+                }
+                v.push(Spec { paths: 1, subscribe, ..base(vec![V::Bytes(n), fail.clone(), V::U32]) });
+            }
         }
     }
     // around the single-message capacity, every size, in every request shape
